@@ -29,4 +29,22 @@ theorem keeps_eraserStep {P : Nat → Prop} {a : Agent} (now : Nat) (over : Bool
         · exact drop _
         · exact hk.trans (fun h' => keeps_appendHist h')
 
+theorem eraserStep_flights (a : Agent) (now : Nat) (over : Bool) : (eraserStep a now over).flights = a.flights := by
+  unfold eraserStep
+  have hpf := pop_flights a now
+  cases hp : pop a now with
+  | mk a' oc =>
+    rw [hp] at hpf; simp only at hpf
+    cases oc with
+    | none => rfl
+    | some c =>
+      simp only
+      have hA : ∀ (b : Agent) (d : Cbd), (appendHist b d).flights = b.flights := by
+        intro b d; unfold appendHist; (repeat' split) <;> rfl
+      (repeat' split) <;> first | (simp only [diskErase_flights, hpf]) | (rw [hA, hpf])
+
+theorem sinv_erase {s : State} (now : Nat) (over : Bool) (h : SInv s []) : SInv (step s (.erase now over)).1 [] :=
+  SInv.setAg (s := s) (a := s.ag) h (fun hA => keeps_eraserStep now over hA)
+    (by rw [eraserStep_flights]; intro g hg; exact ⟨g, hg, rfl, rfl⟩)
+
 end SH.Delivery
